@@ -93,7 +93,8 @@ impl GenConfig {
     pub fn dense_refs(mut self) -> GenConfig {
         self.ref_weight = 3;
         self.refetch_fields = true;
-        self.pointer_den = 2;
+        self.pointer_den = 3;
+        self.max_decls = 12;
         self
     }
     pub fn risky(mut self) -> GenConfig {
